@@ -44,6 +44,13 @@ impl Ctx {
         self.tier == Tier::Quick
     }
     pub fn want(&self, section: &str) -> bool {
+        // VERIF_SKIP=prefix[,prefix]: sections left out of this run (used when another property re-runs an
+        // enumeration under a slow monitor build and only needs the per-call sections)
+        if let Ok(skip) = std::env::var("VERIF_SKIP") {
+            if skip.split(',').any(|p| !p.is_empty() && section.starts_with(p)) {
+                return false;
+            }
+        }
         match &self.only {
             None => true,
             // a gate passes if it is inside the requested prefix or the requested name is inside the gate
